@@ -75,8 +75,14 @@ class HttpRelayClient(RelayPoolClient):
                 raise
         else:
             if self.conn:
-                self.conn.close()
+                self._close_conn()
                 self.conn = None
+
+    def _close_conn(self):
+        # Closing an HTTPS connection waits for the server's TLS shutdown,
+        # which must not be able to outlast the relay's timeout either.
+        with gevent.Timeout(self.relay.timeout, False):
+            self.conn.close()
 
     def _b64encode(self, what):
         return b64encode(what.encode('utf-8')).decode('ascii')
@@ -157,7 +163,7 @@ class HttpRelayClient(RelayPoolClient):
             pass
         finally:
             if self.conn:
-                self.conn.close()
+                self._close_conn()
 
 
 class HttpRelay(RelayPool):
